@@ -243,9 +243,13 @@ def main(argv):
                 for k in ("n_retries", "delay", "validate_checksum"):
                     if k in step:
                         kw[k] = step[k]
+                # documented defaults (gzip=False, unpack_dataset_columns=False) are exercised by omission
+                if gz or step.get("gz_explicit"):
+                    kw["gzip"] = gz
+                if "unpack" in step:
+                    kw["unpack_dataset_columns"] = bool(step["unpack"])
                 data = base.load_csv_dataset_from_remote(remote, step.get("dataset_filename", "ds"),
-                                                         step.get("folder", "folder"), gzip=gz,
-                                                         unpack_dataset_columns=bool(step.get("unpack", False)), **kw)
+                                                         step.get("folder", "folder"), **kw)
             elif op == "by_name":
                 substitute["on"] = bool(step.get("substitute", False))
                 if "unpack" in step:
